@@ -77,6 +77,7 @@ def sp_forall(eng, node, st, exists=False):
     args = node.args
     lam = args[-1]
     names, consts, saved = _bind_lambda(eng, lam, st)
+    st.ghost['qdepth'] = st.ghost.get('qdepth', 0) + 1
     try:
         rng = []
         if len(args) == 3:
@@ -99,6 +100,7 @@ def sp_forall(eng, node, st, exists=False):
                 pats.append(z3.MultiPattern(*terms) if len(terms) > 1 else terms[0])
     finally:
         _unbind(st, saved)
+        st.ghost['qdepth'] -= 1
     if pats and not exists:
         f = z3.Implies(z3.And(*rng), body) if rng else body
         try:
@@ -270,7 +272,8 @@ def sp_rsum(eng, node, st):
         finally:
             _unbind(st, saved)
         models._CUR[0] = st
-        arr = models.lam(consts, to_real(body))
+        # under an enclosing quantifier the summand mentions bound variables: a genuine Lambda term is needed
+        arr = z3.Lambda(consts, to_real(body)) if st.ghost.get('qdepth', 0) > 0 else models.lam(consts, to_real(body))
     else:
         v = eng.ev(a0, st)
         if isinstance(v.k, tuple) and v.k[0] == 'arr' and v.k[1] == 1:
@@ -293,7 +296,7 @@ def sp_norm(eng, node, st):
     finally:
         _unbind(st, saved)
     models._CUR[0] = st
-    arr = models.lam(consts, to_real(body))
+    arr = z3.Lambda(consts, to_real(body)) if st.ghost.get('qdepth', 0) > 0 else models.lam(consts, to_real(body))
     return vreal(models._norm_uf(eng, 1)(arr, n))
 
 
@@ -466,6 +469,8 @@ def call_method(eng, base, name, args, kwargs, st, node):
         sch = S.CLASSES.get(k[1])
         if sch is None:
             raise ContractError("no schema for class " + k[1])
+        if name in sch.fields:
+            return call_funcval(eng, eng.get_attr(st, base, name, node), args, kwargs, st, node)
         return call_repo(eng, sch.qualname + '.' + name, [base] + args, kwargs, st, node)
     head = k[0] if isinstance(k, tuple) else k
     m = eng.methods.get((head, name))
